@@ -1,5 +1,6 @@
 import DadiVerif.Lemmas.Bridge
 import DadiVerif.Generated.EqSwitch
+import DadiVerif.Lemmas.DriverProgram
 /-!
 # C03 — integration is linear in (density, θ0) and independent of the reference size
 
@@ -77,6 +78,35 @@ theorem C03_dt_wiring :
             (if d + 1 == 1 then "h" else "h" ++ toString (ax+1))])))
     ∧ Py.computeDtShapeOk = true := by
   decide
+
+/-- **the schedule of every driver** (time loops of `one_pop … five_pops`, `_one/_two/_three_pops_const_params` translated
+    statement by statement, calls bound by name against the callees' signatures): the loop is `while current_t < T`; the time-dependent
+    drivers compute dt inside the loop from the slots (population k ↦ ν_k, [m_kl]_{l≠k}, γ_k, h_k bound to `_compute_dt`'s `nu`, `ms`,
+    `gamma`, `h`), the constant ones once before it; `this_dt = min(dt, T − current_t)`; `next_t = current_t + this_dt`; EVERY
+    parameter is re-evaluated at `next_t` (at `current_t` before the loop); the injection and every kernel get `this_dt`; the loop
+    advances to `next_t` (`current_t += this_dt`); nothing else is in the loop (a `break`, a different loop form or an extra
+    statement does not translate). -/
+theorem C03_driver_schedule :
+    Py.driverPrograms.map (fun P => Prog.schedule (Prog.resolve P)) = Prog.expectedAll.map Prog.schedule := by
+  decide +kernel
+
+/-- **…and that schedule is the model's**: the expected program of a d-population driver, executed by the statement semantics
+    over `injectFn`/`stepAxisFn`, is `integrateFn` / `integrateConst` of `sweepFn` — the definitions all theorems of this file are
+    about — for every d, every environment and every number of steps -/
+theorem C03_driver_schedule_sem (grids : List (Array ℚ)) (use : Bool) (eps : ℕ → List ℕ → ℕ → ℚ) (E : Prog.PEnv) (fuel : ℕ)
+    (vals0 : Py.Param → ℚ) (φ : List ℕ → ℚ) :
+    let d := grids.length
+    Prog.run (Prog.semFn grids use eps) E (Prog.expected d false) fuel vals0 φ
+        = integrateFn (sweepFn grids (Prog.frList d E) (Prog.nmList d E) use eps) E.tf
+            (fun τ => Prog.toStep d (fun p => E.pf p τ)) E.T fuel E.t0 (Prog.toStep d (fun p => E.pf p E.t0)) φ
+    ∧ Prog.run (Prog.semFn grids use eps) E (Prog.expected d true) fuel vals0 φ
+        = integrateConst (sweepFn grids (Prog.frList d E) (Prog.nmList d E) use eps) E.tf (Prog.toStep d vals0) E.T fuel E.t0 φ := by
+  intro d
+  exact ⟨by rw [Prog.run_expected_fn, ← Prog.sweepOf_semFn], by rw [Prog.run_expected_const, ← Prog.sweepOf_semFn]⟩
+
+/-- non-vacuity: the translated `five_pops` loop evaluates 5 + 5 + 5 + 20 + 1 parameters, all at `next_t` -/
+example : (Py.driverPrograms.map Prog.resolve)[4]?.map (fun R => (R.body.filter
+    (fun s => match s with | .eval _ (.tv .next) => true | _ => false)).length) = some 36 := by decide +kernel
 
 /-- one full time step is unchanged when sizes are multiplied by k, migration/selection/θ0 divided by k and dt multiplied by k -/
 theorem C03_step_scale (grids : List (Array ℚ)) (fr nm : List Bool) (use : Bool) (eps : ℕ → List ℕ → ℕ → ℚ)
